@@ -599,8 +599,24 @@ def eng1(ctx: Ctx) -> None:
         ctx.R.fail("ENG-1", mod, loop, "no `counter > <literal>: raise` test in the unwrap loop", construct="progress bound")
     # reset before the loop and in every branch that records progress
     prev = main.body[main.body.index(loop) - 1] if main.body.index(loop) > 0 else None
-    if prev is not None and norm(prev) == f"{cnt} = 0":
+    # ... on every path into the loop: the nearest preceding statements of the block may be other plain assignments / asserts
+    k_ = main.body.index(loop) - 1
+    found_reset = False
+    while k_ >= 0:
+        st_ = main.body[k_]
+        if norm(st_) == f"{cnt} = 0" or (isinstance(st_, ast.AnnAssign) and norm(st_.target) == cnt and norm(st_.value) == "0"):
+            found_reset = True
+            break
+        if isinstance(st_, (ast.Assign, ast.AnnAssign, ast.Assert, ast.Pass)) and not any(isinstance(n_, ast.Name) and n_.id == cnt for n_ in ast.walk(st_)) \
+                or (isinstance(st_, ast.Expr) and isinstance(st_.value, ast.Constant)):
+            k_ -= 1
+            continue
+        break
+    if found_reset:
         ctx.R.ok("ENG-1", f"{cnt} = 0 before the unwrap loop")
+    elif any(isinstance(a_, (ast.Assign, ast.AnnAssign)) and norm(a_.targets[0] if isinstance(a_, ast.Assign) else a_.target) == cnt and norm(a_.value) == "0" and a_.lineno < loop.lineno
+             and any(a_ is x_ for x_ in ast.walk(main)) for a_ in ast.walk(main)):
+        ctx.R.undecided("ENG-1", f"`{cnt}` is reset to 0 inside the main loop before the unwrap loop, but not as one of the plain statements directly in front of it")
     else:
         ctx.R.fail("ENG-1", mod, loop, f"`{cnt}` is not reset to 0 immediately before the unwrap loop", construct=f"{cnt} = 0 before loop")
     n_prog = 0
